@@ -21,6 +21,8 @@ def gen_case(rng, k):
     if r2.random() < 0.4:
         # built with other settings, used once, then re-tuned through the public attributes
         c["late"] = {"r": r * r2.choice([0.25, 4.0, 10.0]), "lo": lo * 0.5, "hi": hi + 0.25, "fn": r2.choice(["tanh", "exp"]), "scheme": scheme}
+    if r2.random() < 0.3:
+        c["store"] = r2.choice(["list", "tuple"])
     if mode == "nodata":
         return c
     if scheme == "energy":
@@ -38,6 +40,8 @@ def gen_case(rng, k):
             x = rng.choice([1e100, 1e200, 1e300])
             c["energies"] = [x, -x]
     else:
+        if r2.random() < 0.2:
+            c["tiny_forces"] = r2.choice([1e-9, 1e-12, 1e-7])
         m = rng.choice([2, 3, 5, 101]) if mode != "huge" else 101
         comm = []
         for _ in range(m):
@@ -53,6 +57,8 @@ def gen_case(rng, k):
                     vals = [a * (1 + rng.gauss(0, rng.choice([0.01, 0.1, 0.5]))) for _ in range(m)]
                 else:
                     vals = [abs(a) * rng.choice([1.0, 1e6])] + [0.0] * (m - 1)
+                if c.get("tiny_forces"):
+                    vals = [v * c["tiny_forces"] for v in vals]      # the variation coefficient is scale-free: residual forces of a relaxed structure count like any others
                 for t in range(m):
                     comm[t][i][j] = vals[t]
         c["forces_comm"] = comm
